@@ -413,6 +413,12 @@ pub fn profile_opts(profile: &str) -> GenOpts {
             o.names = false;
             o.customs = false;
         }
+        "smalln" => {
+            // small, with a name section
+            o.max_funcs = 3;
+            o.fuel = 12;
+            o.customs = false;
+        }
         "many" => {
             o.max_funcs = 300;
             o.fuel = 30;
